@@ -113,10 +113,11 @@ type queryEngine interface {
 }
 
 func NewQuery(e queryEngine, st storage.Queryable, c *Case) (promql.Query, error) {
+	ns := c.W.SubNs
 	if c.W.Instant() {
-		return e.NewInstantQuery(st, qopts(c.O), c.Q, ms(c.W.Start))
+		return e.NewInstantQuery(st, qopts(c.O), c.Q, ms(c.W.Start).Add(time.Duration(ns[0])))
 	}
-	return e.NewRangeQuery(st, qopts(c.O), c.Q, ms(c.W.Start), ms(c.W.End), time.Duration(c.W.Step)*time.Millisecond)
+	return e.NewRangeQuery(st, qopts(c.O), c.Q, ms(c.W.Start).Add(time.Duration(ns[0])), ms(c.W.End).Add(time.Duration(ns[1])), time.Duration(c.W.Step)*time.Millisecond+time.Duration(ns[2]))
 }
 
 func SetProcs(n int) {
